@@ -18,3 +18,21 @@ package enum
 // every constant of the named type declared in its package is a member, exported or not
 //@   loop 1 invariant forall j int :: 0 <= j && j < idx && dynIs[*types.Const](scope.Lookup(scope.Names()[j])) && types.Identical(named, scope.Lookup(scope.Names()[j]).Type()) ==> has(members, scope.Names()[j])
 //@   ensures !result1 ==> result0.Members == nil
+// which named types qualify: integer, float and string kinds (docs: "any named type with an underlying integer,
+// float or string type that has at least one constant"); nothing else is rejected before looking at the constants
+//@   at@C08 return assert dynIs[*types.Basic](named.Underlying()) && unboxed[*types.Basic](named.Underlying()).Info()&(types.IsFloat|types.IsString|types.IsInteger) != 0 ==> reached("named.Obj#1")
+//@   at@C08 return assert !dynIs[*types.Basic](named.Underlying()) || unboxed[*types.Basic](named.Underlying()).Info()&(types.IsFloat|types.IsString|types.IsInteger) == 0 ==> !result1
+
+// C08: the built-in regex transformer maps a source member to pattern.ReplaceAllString(member, replacement) -- the
+// whole name with every match replaced -- exactly when that names a member of the target enum
+//@ func transformRegex(ctx)
+//@   props C08
+//@   loop 1 invariant m != nil && isFresh(m)
+//@   loop 1 invariant forall k string :: has(ctx.Source.Members, k) == old(has(ctx.Source.Members, k))
+//@   loop 1 invariant forall k string :: has(ctx.Target.Members, k) == old(has(ctx.Target.Members, k))
+//@   loop 1 invariant forall k string :: has(m, k) ==> has(ctx.Source.Members, k)
+//@   loop 1 invariant forall k string :: has(m, k) ==> m[k] == pattern.ReplaceAllString(k, parts[1])
+//@   loop 1 invariant forall k string :: has(m, k) ==> has(ctx.Target.Members, m[k])
+//@   loop 1 invariant forall k string :: has(seen, k) && has(ctx.Target.Members, pattern.ReplaceAllString(k, parts[1])) ==> has(m, k)
+//@   at return assert err == nil ==> (forall k string :: has(m, k) ==> has(ctx.Source.Members, k) && m[k] == pattern.ReplaceAllString(k, parts[1]) && has(ctx.Target.Members, m[k]))
+//@   at return assert err == nil ==> (forall k string :: has(ctx.Source.Members, k) && has(ctx.Target.Members, pattern.ReplaceAllString(k, parts[1])) ==> has(m, k))
